@@ -251,6 +251,14 @@ def check_message(ctx, case, toks, b, tag, max_depth, budget):
     compressed = bool(m.is_compressed.value)
     nsub = len(flat)
     paths = enumerate_paths(rng, nested[0], max_depth, budget)
+    if case.get('all_subsets') and not compressed:
+        # the subsets' trees differ (attributes hang on different owners): paths that exist in ANY subset's tree
+        seen = {e for e, _ in paths}
+        for t in nested[1:]:
+            for e, cs in enumerate_paths(rng, t, max_depth, budget):
+                if e not in seen:
+                    seen.add(e)
+                    paths.append((e, cs))
     ids, attr_ids = all_ids(nested[0])
     desc = []
     for i in rng.sample(ids, min(len(ids), 4)):
